@@ -37,6 +37,22 @@ pub fn make_case(seed: u64) -> ProjectCase {
     c.threads = [1, 2, 2, 3, 4][r.gen_range(0..5)];
     c.mode = if r.gen_bool(0.25) { Mode::InMemoryBuild } else { Mode::Build };
     c.spec = if r.gen_bool(0.2) { Spec::Free { delay: Some((seed, 300)) } } else { Spec::Free { delay: None } };
+    // leftovers of an earlier generation at the generated paths (the result must not depend on them)
+    if r.gen_bool(0.3) {
+        let pre = crate::model::evaluate(&c.files, "/nonexistent", c.trailing, &crate::model::sources(&c.files));
+        if pre.out_of_domain.is_none() {
+            for (path, acc) in pre.built.outputs.iter().map(|(k, v)| (k.clone(), v[0].clone())).chain(pre.built.temps.iter().map(|(k, v)| (k.clone(), v.clone()))) {
+                let left: Vec<u8> = match r.gen_range(0..5) {
+                    0 => continue,
+                    1 => format!("{acc}stale tail of an older, longer version\n").into_bytes(),
+                    2 => acc.as_bytes()[..acc.len() / 2].to_vec(),
+                    3 => b"completely different old content\n".to_vec(),
+                    _ => Vec::new(),
+                };
+                c.prestate.insert(path, left);
+            }
+        }
+    }
     c
 }
 
